@@ -5,14 +5,6 @@ From YV Require Import model.Pipe.
 
 (* ---------------------------------------------------------------- dispatch by invocability = dispatch by class *)
 
-(* the classes that type-check as a callback in a world of value type t *)
-Definition par_ok (p : pclass) (t : ty) : bool :=
-  match p, t with
-  | PValue, TVoid => false
-  | (PNone | PUnit), TInt => false
-  | _, _ => true
-  end.
-
 Lemma par_ok_dispatch : forall p t, par_ok p t = dispatch_ok p t && negb (Nat.eqb (tag p t) 0).
 Proof. destruct p, t; reflexivity. Qed.
 
@@ -97,28 +89,6 @@ Theorem refines_obs : forall p o, core_run p = Some o -> obs o = obs (seq_eval p
 Proof. intros p o H. rewrite (refines p o H). reflexivity. Qed.
 
 (* ---------------------------------------------------------------- one step, unfolded *)
-
-(* the executor the step's core holds, and the Result that reaches it *)
-Definition exec_of (a : attach) (oq : out) : exec := match a with AOn e => e | _ => o_exec oq end.
-Definition arrives (a : attach) (oq : out) : res := seq_input a (exec_of a oq) (o_res oq).
-
-Definition step_result (oq : out) (id : nat) (par : pclass) (a : attach) (rt : ty) (body : input -> outcome) : option out :=
-  let ex := exec_of a oq in
-  let r := arrives a oq in
-  if par_ok par (o_ty oq) then
-    match invoked par r with
-    | None => Some (Out r ex rt (o_evs oq))
-    | Some i =>
-        match body i with
-        | RetAsync k p' =>
-            match run p' with
-            | Some oi => Some (Out (o_res oi) ex rt (o_evs oq ++ Ev id ex (is_call a) i :: o_evs oi))
-            | None => None
-            end
-        | o' => Some (Out (done_result o') ex rt (o_evs oq ++ [Ev id ex (is_call a) i]))
-        end
-    end
-  else None.
 
 Lemma then_unfold : forall q id par a rt body oq,
   run q = Some oq -> run (PThen q id par a rt body) = step_result oq id par a rt body.
